@@ -178,6 +178,14 @@ def run_sequence(ops, stats, report):
         elif op[0] in ('redef', 'dsetfn'):
             flex = op[1]
         ct, tt = client_twin_text(op)
+        if op[0] == 'call' and op[3] == 'join':
+            # the argument list is built on the client by joining; if klongpy cannot even build it locally (e.g. members
+            # that are empty lists) nothing is sent and the case says nothing about transport
+            try:
+                pair.kc(ct[len('r::f('):-1])
+            except Exception:
+                stats.reject('argument list cannot be built on the client')
+                continue
         exp = twin_outcome(twin, tt)
         got = client_outcome(pair.kc, ct)
         vals = op_values(op)
@@ -479,7 +487,7 @@ def check(run):
     jobs += [('exh', i, 4) for i in range(4)]
     jobs += [('gen', run.seed * 1000 + 100 + i, 1000 if quick else 10000) for i in range(4)]
     run.absorb(core.pool_map('vk.c13_ipc', 'shard', jobs))
-    run.min_class_fraction = {'op:f(:fn,args)': 0.02, 'frame>64KiB': 0.002}
+    run.min_class_fraction = {'op:f(:fn,args)': 0.008, 'frame>64KiB': 0.002}
 
 
 def replay(case):
